@@ -165,6 +165,12 @@ def _canon_indexer(e):
     """pandas label indexing in one spelling: X.loc[r, :] is X.loc[r]; X.loc[r].loc[c] is X.loc[r, c]; the last row of a history
     that ends at its node's clock is the row of that clock."""
     X, kind, idx = e[1][1], e[1][2], e[2]
+    if (kind == "loc" and isinstance(idx, tuple) and len(idx) == 5 and idx[0] == "mcall" and idx[2] == "intersection" and len(idx[3]) == 1 and not idx[4]
+            and isinstance(idx[1], tuple) and len(idx[1]) == 3 and idx[1][0] == "attr" and idx[1][2] == "index"
+            and isinstance(X, tuple) and len(X) == 5 and X[0] == "mcall" and X[2] == "dropna" and not X[3] and not X[4] and canon(idx[1][1]) == canon(X)):
+        # keeping the labels of a set and dropping the missing entries commute: X.dropna().loc[X.dropna().index & S] is X.loc[X.index & S].dropna()
+        Y = X[1]
+        return canon(("mcall", ("sub", ("attr", Y, "loc"), ("mcall", ("attr", Y, "index"), "intersection", idx[3], ())), "dropna", (), ()))
     if kind == "loc" and idx[0] == "tuple" and len(idx) == 3 and idx[2] == _FULL_SLICE and idx[1][0] not in ("slice", "tuple"):
         return canon(("sub", ("attr", X, "loc"), idx[1]))
     if (kind == "iloc" and isinstance(idx, tuple) and len(idx) == 5 and idx[0] == "mcall" and idx[2] == "get_loc" and len(idx[3]) == 1 and not idx[4]
@@ -202,6 +208,9 @@ def _strip_snapshot(it, calls=("list", "tuple")):
     return it
 
 
+ISSEC_IS_SECURITY = False  # switched on by the source loader when the constructors establish the invariant
+
+
 def _canon(e):
     t = e[0]
     if t in ("num", "str", "none", "bool", "nan", "inf", "param", "opaque", "res", "lc", "rat", "class", "func", "impl"):
@@ -212,6 +221,9 @@ def _canon(e):
         return canon(("list",) + tuple(e[1][1:]) + tuple(e[2][1:]))  # [a] + [b, c] is [a, b, c]
     if t in ARITH or t == "pos":
         return to_rat(e).canon()
+    if t == "fld" and len(e) == 4 and e[2] == "_issec" and ISSEC_IS_SECURITY:
+        # the node-kind flag is set once, False by Node and True by SecurityBase (verified on the analysed source): it IS the type test
+        return ("call", "isinstance", (canon(e[1]), ("class", "SecurityBase")), ())
     if t == "call":
         f, args, kw = e[1], e[2], e[3]
         if f in ABS_FUNCS and len(args) == 1:
@@ -334,6 +346,11 @@ def _canon(e):
             if b == k[1]:
                 return ("dval", k[1], k[2])  # d[k] for the key being iterated is the value being iterated
             return ("sub", b, k)
+    if (t == "sub" and len(e) == 3 and isinstance(e[2], tuple) and len(e[2]) == 5 and e[2][0] == "mcall" and e[2][2] == "isin" and len(e[2][3]) == 1 and not e[2][4]
+            and isinstance(e[2][1], tuple) and len(e[2][1]) == 3 and e[2][1][0] == "attr" and e[2][1][2] == "index" and isinstance(e[1], tuple)
+            and canon(e[2][1][1]) == canon(e[1])):
+        # X[X.index.isin(S)] keeps, in X's order, the rows whose label is in S: X.loc[X.index.intersection(S)] (unique labels)
+        return canon(("sub", ("attr", e[1], "loc"), ("mcall", ("attr", e[1], "index"), "intersection", e[2][3], ())))
     if t == "sub" and len(e) == 3 and isinstance(e[1], tuple) and len(e[1]) == 3 and e[1][0] == "attr" and e[1][2] in ("loc", "iloc") and isinstance(e[2], tuple) and e[2]:
         r = _canon_indexer(e)
         if r is not None:
@@ -610,6 +627,9 @@ def _lits(c, pol):
             return [(neg_atom(c), True)]
         if c[0] == "bool":
             return [] if c[1] == pol else [(("bool", False), True)]
+        if c[0] == "call" and c[1] == "len" and len(c) == 4:
+            # the truth value of a length is `length != 0`
+            return _lits(canon(("cmp", "==", c, ZERO)), not pol)
     return [(c, pol)]
 
 
@@ -1040,15 +1060,77 @@ def _contradiction(lits):
     return False
 
 
-def equal(a, b):
+def equal(a, b, _depth=0):
     """Semantic equality within the algebra: canonical forms equal, or rational cross-multiplication."""
     ca, cb = canon(a), canon(b)
     if ca == cb:
         return True
     try:
-        return to_rat(a).equals(to_rat(b))
+        if to_rat(a).equals(to_rat(b)):
+            return True
     except Exception:
-        return False
+        pass
+    if _depth < 2:
+        try:
+            return _equal_by_sign(a, b, ca, cb, _depth)
+        except Exception:
+            return False
+    return False
+
+
+def _abs_args(c, acc):
+    for n in walk(c):
+        if isinstance(n, tuple) and len(n) == 4 and n[0] == "call" and n[1] == "abs" and len(n[2]) == 1 and not n[3]:
+            if n[2][0] not in acc:
+                acc.append(n[2][0])
+
+
+def _single_atom(r):
+    """the atom x when the value is c*x (c a non-zero constant), else None"""
+    rr = to_rat(r)
+    if list(rr.den.keys()) != [()] or len(rr.num) != 1:
+        return None
+    (mono, coef), = rr.num.items()
+    if len(mono) == 1 and mono[0][1] == 1 and coef != 0:
+        return mono[0][0]
+    return None
+
+
+def _equal_by_sign(a, b, ca, cb, depth):
+    """abs(x) against a sign-selected branch (`h if q >= 0 else -h`): decide by the three sign cases of x."""
+    args = []
+    _abs_args(ca, args)
+    _abs_args(cb, args)
+    for A in args[:2]:
+        ok = True
+        for s in (1, -1, 0):
+            repl = A if s > 0 else ("neg", A) if s < 0 else ZERO
+
+            def rw(v):
+                if isinstance(v, tuple):
+                    if len(v) == 4 and v[0] == "call" and v[1] == "abs" and len(v[2]) == 1 and not v[3]:
+                        cv = canon(v)
+                        if cv[0] == "call" and cv[2][0] == A:
+                            return repl
+                    if v and v[0] == "rat":
+                        return v
+                    return tuple(rw(x) for x in v)
+                return v
+            g = sat([(canon(("cmp", ">" if s > 0 else "<" if s < 0 else "==", A, ZERO)), True)])
+            x, y = rw(ca), rw(cb)
+            x, y = rw(a) if x == ca else x, rw(b) if y == cb else y
+            if s == 0:
+                atom = _single_atom(A)
+                if atom is None:
+                    ok = False
+                    break
+                x, y = substitute(rw(a), {atom: ZERO}), substitute(rw(b), {atom: ZERO})
+            if not equal(_restrict(x, g), _restrict(y, g), depth + 1):
+                ok = False
+                break
+        if ok:
+            return True
+    return False
 
 
 # ----------------------------------------------------------------------------------------------
